@@ -60,7 +60,7 @@ def main():
             if not no_suite:
                 t = time.time()
                 rc, out = sh(
-                    "/venv/bin/python -m pytest -q -p no:cacheprovider -n 6 --timeout=900 glotaran", cwd=wt, env=env
+                    "/venv/bin/python -m pytest -q -p no:cacheprovider -n 6 --timeout=900 glotaran benchmark", cwd=wt, env=env
                 )
                 tail = out.strip().splitlines()[-1] if out.strip() else ""
                 failed = [l for l in out.splitlines() if l.startswith("FAILED")]
